@@ -1017,9 +1017,6 @@ def run(ctx: C.Ctx):
             for t in re.findall(r"__redu_lcd_tick_\w+\(__redu_lcd_anim_(\w+)_\d+,", loop_part):
                 if t not in ticks:
                     ticks.append(t)
-            for what, obs in (("button polls", polls), ("ultrasonic helpers", helpers), ("LCD ticks", ticks)):
-                if len(obs) >= 1:
-                    m = ctx.model([[1, [], list(reversed(obs))]])[0] if False else None
             d["sorted_obs"] = {"button polls": polls, "ultrasonic helpers": helpers, "LCD ticks": ticks}
         cases, back = [], []
         for d in devs:
